@@ -321,6 +321,14 @@ func (c *Ctx) callByContract(st *State, in ssa.Instruction, sp *FuncSpec, key st
 	st.CallLog = append(st.CallLog, CallRec{Callee: short, Args: args, Names: names})
 	logIdx := len(st.CallLog) - 1
 	old := st.snapshot()
+	// the callee may allocate: the allocation mark moves (by an unknown amount), so that what it hands back may be a
+	// region that did not exist before the call; fresh() in its postconditions is relative to the mark at the call
+	callMark := st.Alloc
+	if callMark != nil {
+		na := Fresh("alloc.call", IntSort)
+		st.assume(Cmp(">=", na, st.Alloc, true))
+		st.Alloc = na
+	}
 	// havoc frame
 	for _, m := range sp.Modifies {
 		c.havocLocation(env, m)
@@ -340,7 +348,7 @@ func (c *Ctx) callByContract(st *State, in ssa.Instruction, sp *FuncSpec, key st
 		result = tv
 	}
 	st.CallLog[logIdx].Ret = result
-	env2 := &SpecEnv{c: c, st: st, vars: env.vars, old: old, result: result, hasResult: true, pkg: sp.Pkg, sig: sig}
+	env2 := &SpecEnv{c: c, st: st, vars: env.vars, old: old, result: result, hasResult: true, pkg: sp.Pkg, sig: sig, allocMark: callMark}
 	for i := 0; i < rs.Len(); i++ {
 		if n := rs.At(i).Name(); n != "" && n != "_" {
 			if rs.Len() == 1 {
